@@ -1036,6 +1036,9 @@ class Index(IndexBase):
         if self._map is None: # loc is iloc
             is_bool_array = key.__class__ is np.ndarray and key.dtype == DTYPE_BOOL #type: ignore
 
+            if self._recache: # a grow-only index: positions are rebuilt after an append
+                self._update_array_cache()
+
             try:
                 result = self._positions[key]
             except IndexError:
